@@ -61,6 +61,34 @@ class PredCase(Case):
             s.fsm.on_process_state_event(s.context.instances[self.ids[i]], ev)
             info = procx.info_map[self.ids[i]]
             self.record(f"event {i} {p} {st} 1 {int(info['event_time'] * UNIT)} {int(info['local_mtime'] * UNIT)}")
+        if self.gen >= 4 and self.rnd2.random() < 0.35:
+            # a forced state that hides the real one (e.g. a start given up on time-out while the process is STARTING somewhere): the
+            # prediction must start from the REAL state of the process, as the actual start does
+            cands = [(p, i) for p, cfg in enumerate(self.pinfo) for i in cfg['known'] if self.running[i]
+                     and s.context.get_process(f"{cfg['aname']}:{cfg['name']}").info_map.get(self.ids[i], {}).get('state') in (10, 20)]
+            if cands:
+                p, i = self.rnd2.choice(cands); cfg = self.pinfo[p]
+                procx = s.context.get_process(f"{cfg['aname']}:{cfg['name']}")
+                T[0] += 1
+                procx.force_state({'identifier': self.ids[i], 'state': 200, 'now_monotonic': T[0] / UNIT, 'spawnerr': 'start given up'})
+                s.context.applications[cfg['aname']].update()
+                self.record(f"force {p} {i} 200 {T[0]}")
+        # predictions about single processes (`test_start_process`): side-effect freedom judged on the implementation
+        if self.gen >= 4:
+            procs_ = [(p, cfg) for p, cfg in enumerate(self.pinfo) if s.context.get_process(f"{cfg['aname']}:{cfg['name']}").stopped()]
+            self.rnd2.shuffle(procs_)
+            for p, cfg in procs_[:2]:
+                procx = s.context.get_process(f"{cfg['aname']}:{cfg['name']}")
+                strat = self.rnd2.choice(list(StartingStrategies))
+                before = snapshot(self)
+                try:
+                    s.starter_model.test_start_processes(strat, [procx])
+                except Exception as e:
+                    self.findings.append((f'C19:exception:test_start_processes:{type(e).__name__}', f'test_start_processes({strat.name}, {procx.namespec}) raised {e!r}'))
+                self.predictions += 1
+                d = diff_snap(before, snapshot(self))
+                if d: self.findings.append(('C19:side-effect:' + d[0].split('[')[0] + ':test_start_process', f'statuses changed by a process prediction ({procx.namespec}, {strat.name}): {d[:4]}'))
+                self.emitted = []
         apps = [a for a in self.aidx if s.context.applications[a].stopped()]
         rnd.shuffle(apps)
         for aname in apps[:2]:
